@@ -25,7 +25,7 @@ OPS = genops.REPLACE_FAMILY
 
 
 def cases(tier):
-    return 700 if tier == "quick" else 30000
+    return 4500 if tier == "quick" else 120000
 
 
 def floors(tier):
